@@ -118,6 +118,37 @@ func (h *History) CSM(st *Step) (io.ColumnSeriesMap, bool) {
 	return csm, variable
 }
 
+// Enqueue does what WriteCSM does up to RequestFlush, without it: the buckets exist already (precreate), the
+// rows are serialised in the bucket's column order and queued by Writer.WriteRecords.
+func (in *Instance) Enqueue(h *History, st *Step) error {
+	csm, variable := h.CSM(st)
+	for tbk, cs := range csm {
+		tbk := tbk
+		times, err := cs.GetTime()
+		if err != nil {
+			return err
+		}
+		if variable {
+			if err := cs.Remove("Nanoseconds"); err != nil {
+				return err
+			}
+		}
+		tbi, err := in.Cat.GetLatestTimeBucketInfoFromKey(&tbk)
+		if err != nil {
+			return err
+		}
+		dbDSV := tbi.GetDataShapesWithEpoch()
+		rowData, _, err := io.SerializeColumnsToRows(cs, dbDSV, false)
+		if err != nil {
+			return err
+		}
+		if err := in.Writer.WriteRecords(times, rowData, dbDSV, tbi); err != nil {
+			return err
+		}
+	}
+	return nil
+}
+
 // RunStep executes one step of a history on the instance.
 func (in *Instance) RunStep(h *History, st *Step) error {
 	switch st.Kind {
